@@ -1,4 +1,6 @@
 import TnVerif.Model.TTMatrix
+import TnVerif.Lemmas.TTMatMul
+import TnVerif.Lemmas.KronDet
 import Mathlib.LinearAlgebra.Matrix.Kronecker
 import Mathlib.LinearAlgebra.Matrix.NonsingularInverse
 /-!
@@ -74,5 +76,201 @@ theorem det_three_blocks {p : Type} [Fintype p] [DecidableEq p] (A : Matrix m m 
       det A ^ (Fintype.card n * Fintype.card p) * (det B ^ (Fintype.card p * Fintype.card m) * det C ^ (Fintype.card n * Fintype.card m)) := by
   rw [det_kronecker, det_kronecker, Fintype.card_prod, mul_pow, ← pow_mul, ← pow_mul]
 end kron
+
+/-! ### contractions against the decompressed matrix -/
+section contractions
+variable {R : Type} [CommSemiring R]
+
+/-- **trace**: the left-to-right sweep `factor = einsum('i,iaaj->j', factor, core)` of `TTMatrix.trace()`
+    returns the trace of the decompressed matrix, `Σ_{is} M[is, is]`, for any number of cores, any sizes
+    and any TT ranks (square blocks, as the einsum `iaaj` requires; boundary ranks 1) -/
+theorem trace_eq (m : TTMat R) (hwf : m.WF) (hsq : ∀ c ∈ m, c.inD = c.outD) :
+    m.trace = boxSum m.inDims (fun is => m.entry is is) := by
+  obtain ⟨hne, hch⟩ := hwf
+  cases m with
+  | nil => exact absurd rfl hne
+  | cons c cs =>
+    have h := traceGo_spec (c :: cs) 1 (FlatArr.tab 1 fun _ => 1) hch hsq
+    simp only [TTMat.trace, h, Finset.sum_range_one, FlatArr.get_tab, one_mul]
+    apply boxSum_congr; intro is
+    exact (TTMat.entry_eq c cs is is hch.1).symm
+
+example : (TTMat.WF ([⟨1, 2, 2, 3, fun a i j b => (a + i + 2 * j + b : Nat)⟩, ⟨3, 2, 2, 1, fun a i j b => (a * i + j + b : Nat)⟩] : TTMat Nat))
+    ∧ ∀ c ∈ ([⟨1, 2, 2, 3, fun a i j b => (a + i + 2 * j + b : Nat)⟩, ⟨3, 2, 2, 1, fun a i j b => (a * i + j + b : Nat)⟩] : TTMat Nat),
+        c.inD = c.outD := by
+  simp [TTMat.WF, TTMat.chain]
+
+/-- **tt_multiply, batch**: for a batch of `nb` row vectors `x` (flat, `nb × rows`), the flat result of
+    `tt_multiply` at batch item `k` and column multi-index `js` is `Σ_{is} x[k, is] · M[is, js]` with `M` the
+    decompressed matrix: `tt_multiply(ttm, x) = x @ ttm.torch()`.  Any number of cores ≥ 1, any sizes, any
+    TT ranks (boundary ranks 1); the dimension hypotheses are the ones under which the `reshape(…, -1, …)`
+    calls of the code are defined. -/
+theorem tt_multiply_eq (m : TTMat R) (hwf : m.WF) (hpos : ∀ c ∈ m, 0 < c.inD ∧ 0 < c.rl)
+    (nb : Nat) (x : Nat → R) (k : Nat) (hk : k < nb) (js : List Nat) (hjs : inShape js m.outDims) :
+    m.multiply nb x (k * m.outDims.prod + flat js m.outDims) =
+      boxSum m.inDims (fun is => x (k * m.inDims.prod + flat is m.inDims) * m.entry is js) := by
+  obtain ⟨hne, hch⟩ := hwf
+  cases m with
+  | nil => exact absurd rfl hne
+  | cons c cs => exact ttMultiply_spec c cs hch hpos nb x k hk js hjs
+
+/-- **tt_multiply, one vector** (`x` reshaped to `1 × rows`): the result at column multi-index `js` is
+    `Σ_{is} x[is] · M[is, js]` -/
+theorem tt_multiply_vec (m : TTMat R) (hwf : m.WF) (hpos : ∀ c ∈ m, 0 < c.inD ∧ 0 < c.rl)
+    (x : Nat → R) (js : List Nat) (hjs : inShape js m.outDims) :
+    m.multiply 1 x (flat js m.outDims) = boxSum m.inDims (fun is => x (flat is m.inDims) * m.entry is js) := by
+  have h := tt_multiply_eq m hwf hpos 1 x 0 (by omega) js hjs
+  simpa using h
+
+example : (TTMat.WF ([⟨1, 2, 3, 2, fun a i j b => (a + i + 2 * j + b : Nat)⟩, ⟨2, 3, 1, 1, fun a i j b => (a * i + j + b : Nat)⟩] : TTMat Nat))
+    ∧ (∀ c ∈ ([⟨1, 2, 3, 2, fun a i j b => (a + i + 2 * j + b : Nat)⟩, ⟨2, 3, 1, 1, fun a i j b => (a * i + j + b : Nat)⟩] : TTMat Nat),
+        0 < c.inD ∧ 0 < c.rl)
+    ∧ inShape [2, 0] (TTMat.outDims ([⟨1, 2, 3, 2, fun a i j b => (a + i + 2 * j + b : Nat)⟩, ⟨2, 3, 1, 1, fun a i j b => (a * i + j + b : Nat)⟩] : TTMat Nat)) := by
+  simp [TTMat.WF, TTMat.chain, TTMat.outDims, inShape]
+
+/-- **cp_multiply, batch**: the flat result of `cp_multiply` at batch item `k`, column multi-index `js` is
+    `Σ_{is} x[k, is] · M[is, js]` with `M` the decompressed CP matrix.  Any number of cores ≥ 1, any sizes,
+    any common CP rank `rk ≥ 1`. -/
+theorem cp_multiply_eq (rk : Nat) (hrk : 0 < rk) (m : CPMat R) (hwf : m.WF rk) (hpos : ∀ c ∈ m, 0 < c.inD)
+    (nb : Nat) (x : Nat → R) (k : Nat) (hk : k < nb) (js : List Nat) (hjs : inShape js m.outDims) :
+    m.multiply nb x (k * m.outDims.prod + flat js m.outDims) =
+      boxSum m.inDims (fun is => x (k * m.inDims.prod + flat is m.inDims) * m.entry is js) := by
+  obtain ⟨hne, hall⟩ := hwf
+  cases m with
+  | nil => exact absurd rfl hne
+  | cons c cs => exact cpMultiply_spec rk hrk c cs (fun c' hc' => ⟨hall c' hc', hpos c' hc'⟩) nb x k hk js hjs
+
+/-- **cp_multiply, one vector** -/
+theorem cp_multiply_vec (rk : Nat) (hrk : 0 < rk) (m : CPMat R) (hwf : m.WF rk) (hpos : ∀ c ∈ m, 0 < c.inD)
+    (x : Nat → R) (js : List Nat) (hjs : inShape js m.outDims) :
+    m.multiply 1 x (flat js m.outDims) = boxSum m.inDims (fun is => x (flat is m.inDims) * m.entry is js) := by
+  have h := cp_multiply_eq rk hrk m hwf hpos 1 x 0 (by omega) js hjs
+  simpa using h
+
+example : (CPMat.WF 2 ([⟨2, 3, 2, fun i j r => (i + 2 * j + r : Nat)⟩, ⟨3, 1, 2, fun i j r => (i * r + j : Nat)⟩] : CPMat Nat))
+    ∧ (∀ c ∈ ([⟨2, 3, 2, fun i j r => (i + 2 * j + r : Nat)⟩, ⟨3, 1, 2, fun i j r => (i * r + j : Nat)⟩] : CPMat Nat), 0 < c.inD)
+    ∧ inShape [2, 0] (CPMat.outDims ([⟨2, 3, 2, fun i j r => (i + 2 * j + r : Nat)⟩, ⟨3, 1, 2, fun i j r => (i * r + j : Nat)⟩] : CPMat Nat)) := by
+  simp [CPMat.WF, CPMat.outDims, inShape]
+
+/-! the same three statements against the dense matrix `torch()` returns (flat row / column positions) -/
+
+/-- **trace, dense form**: `ttm.trace() = Σ_p M[p, p]` for `M = ttm.torch()` -/
+theorem trace_eq_dense (m : TTMat R) (hwf : m.WF) (hsq : ∀ c ∈ m, c.inD = c.outD) :
+    m.trace = ∑ p ∈ Finset.range m.inDims.prod, m.torch p p := by
+  have ho : m.outDims = m.inDims := by
+    simp only [TTMat.outDims, TTMat.inDims]
+    exact List.map_congr_left (fun c hc => (hsq c hc).symm)
+  rw [trace_eq m hwf hsq, boxSum_eq_sum_range]
+  simp only [TTMat.torch, ho]
+
+/-- **trace, left boundary rank > 1**: `einsum('i,iaaj->j', ones(1), core)` broadcasts the initial factor over
+    the first core's left rank, so the sweep still returns the trace of the decompression (which sums the
+    left boundary rank) when only the right boundary rank is 1 -/
+theorem trace_eq_leftrank (c : Core4 R) (cs : TTMat R) (hch : TTMat.chain c.rl (c :: cs))
+    (hsq : ∀ c' ∈ c :: cs, c'.inD = c'.outD) :
+    TTMat.trace (c :: cs) = boxSum (TTMat.inDims (c :: cs)) (fun is => TTMat.entry (c :: cs) is is) := by
+  have h := traceGo_spec (c :: cs) c.rl (FlatArr.tab 1 fun _ => 1) hch hsq
+  simp only [TTMat.trace, h, FlatArr.get_tab, one_mul]
+  rw [← boxSum_sum]
+  apply boxSum_congr; intro is
+  exact (TTMat.entry_eq_sum c cs is is).symm
+
+/-- **tt_multiply, dense form**: `tt_multiply(ttm, x)[k, q] = Σ_p x[k, p] · M[p, q]` for `M = ttm.torch()`,
+    i.e. `tt_multiply(ttm, x) = x @ ttm.torch()` entry by entry on the flat row-major data -/
+theorem tt_multiply_dense (m : TTMat R) (hwf : m.WF) (hpos : ∀ c ∈ m, 0 < c.inD ∧ 0 < c.rl)
+    (nb : Nat) (x : Nat → R) (k : Nat) (hk : k < nb) (q : Nat) (hq : q < m.outDims.prod) :
+    m.multiply nb x (k * m.outDims.prod + q) =
+      ∑ p ∈ Finset.range m.inDims.prod, x (k * m.inDims.prod + p) * m.torch p q := by
+  obtain ⟨hin, hfl⟩ := unflat_spec m.outDims q hq
+  have h := tt_multiply_eq m hwf hpos nb x k hk (unflat m.outDims q) hin
+  rw [hfl] at h
+  rw [h, boxSum_eq_sum_range]
+  apply Finset.sum_congr rfl; intro p hp
+  rw [(unflat_spec m.inDims p (Finset.mem_range.mp hp)).2]
+  rfl
+
+/-- **cp_multiply, dense form**: `cp_multiply(cpm, x) = x @ cpm.torch()` entry by entry -/
+theorem cp_multiply_dense (rk : Nat) (hrk : 0 < rk) (m : CPMat R) (hwf : m.WF rk) (hpos : ∀ c ∈ m, 0 < c.inD)
+    (nb : Nat) (x : Nat → R) (k : Nat) (hk : k < nb) (q : Nat) (hq : q < m.outDims.prod) :
+    m.multiply nb x (k * m.outDims.prod + q) =
+      ∑ p ∈ Finset.range m.inDims.prod, x (k * m.inDims.prod + p) * m.torch p q := by
+  obtain ⟨hin, hfl⟩ := unflat_spec m.outDims q hq
+  have h := cp_multiply_eq rk hrk m hwf hpos nb x k hk (unflat m.outDims q) hin
+  rw [hfl] at h
+  rw [h, boxSum_eq_sum_range]
+  apply Finset.sum_congr rfl; intro p hp
+  rw [(unflat_spec m.inDims p (Finset.mem_range.mp hp)).2]
+  rfl
+
+/-- the index maps of `torch()`'s final reshape are mutually inverse on the box -/
+theorem unflat_flat_roundtrip (is ss : List Nat) (h : inShape is ss) : unflat ss (flat is ss) = is :=
+  unflat_flat is ss h
+
+end contractions
+
+/-! ### determinant of any number of Kronecker blocks -/
+section kronN
+variable {K : Type} [CommRing K]
+
+/-- **determinant, N blocks**: the loop of `TTMatrix.determinant`, `det *= det(block_k) ** (rows / n_k)` over all
+    blocks, returns the determinant of the Kronecker product `A_0 ⊗ (A_1 ⊗ (… ⊗ A_{d-1}))`, for any number of
+    square blocks of any sizes (generalises `det_two_blocks` / `det_three_blocks`) -/
+theorem det_n_blocks (ns : List Nat) (bs : Blocks K ns) :
+    kronDet (blockDets ns bs) = det (kronAll ns bs) := by
+  have h := prod_blockDets ns bs 1
+  simp only [kronDet, blockDets_fst, foldl_mul_pow, one_mul, pow_one] at h ⊢
+  exact h
+
+example : kronDet (blockDets [2, 1] ((!![1, 2; 3, 4] : Matrix (Fin 2) (Fin 2) ℤ), ((!![5] : Matrix (Fin 1) (Fin 1) ℤ), ()))) = -50 := by
+  simp [kronDet, blockDets, powNat, Matrix.det_fin_two]
+
+/-- **the Kronecker product is what an all-ranks-1 TT matrix decompresses to**: entry `(I, J)` of
+    `A_0 ⊗ A_1 ⊗ …` with `A_k = cores[k][0, :, :, 0]` is `ttm.torch()` at the multi-indices `I`, `J` -/
+theorem kron_entry (m : TTMat K) (hne : m ≠ []) (h : ∀ c ∈ m, c.rl = 1 ∧ c.rr = 1 ∧ c.inD = c.outD)
+    (I J : KIdx m.inDims) :
+    kronAll m.inDims (blocksOf m) I J = m.entry (KIdx.toList _ I) (KIdx.toList _ J) := by
+  rw [kronAll_blocksOf m h I J]
+  cases m with
+  | nil => exact absurd rfl hne
+  | cons c cs => exact (TTMat.entry_eq c cs _ _ (h c List.mem_cons_self).1).symm
+
+/-- **`determinant()` of a Kronecker TT matrix**: for all ranks 1 and square blocks (what
+    `_check_kron_properties` accepts), the loop's result is the determinant of the decompressed matrix -/
+theorem determinant_eq (m : TTMat K) (hne : m ≠ []) (h : ∀ c ∈ m, c.rl = 1 ∧ c.rr = 1 ∧ c.inD = c.outD) :
+    kronDet (blockDets m.inDims (blocksOf m)) =
+      det (Matrix.of fun (I J : KIdx m.inDims) => m.entry (KIdx.toList _ I) (KIdx.toList _ J)) := by
+  rw [det_n_blocks]
+  congr 1
+  ext I J
+  exact kron_entry m hne h I J
+
+example : (([⟨1, 2, 2, 1, fun _ i j _ => (i + 2 * j : ℤ)⟩, ⟨1, 3, 3, 1, fun _ i j _ => (i * j + 1 : ℤ)⟩] : TTMat ℤ) ≠ [])
+    ∧ ∀ c ∈ ([⟨1, 2, 2, 1, fun _ i j _ => (i + 2 * j : ℤ)⟩, ⟨1, 3, 3, 1, fun _ i j _ => (i * j + 1 : ℤ)⟩] : TTMat ℤ),
+        c.rl = 1 ∧ c.rr = 1 ∧ c.inD = c.outD := by
+  simp
+
+/-- **inverse, N blocks**: `inv()` inverts every block; the Kronecker product of the block inverses is the
+    inverse of the Kronecker product, for any number of blocks -/
+theorem inv_n_blocks (ns : List Nat) (bs : Blocks K ns) :
+    kronAll ns (Blocks.map (fun _ A => A⁻¹) ns bs) = (kronAll ns bs)⁻¹ := (kronAll_inv ns bs).symm
+
+/-- **Cholesky, N blocks**: if every `L_k` satisfies `L_k L_kᵀ = A_k` then the Kronecker product of the `L_k`
+    is a Cholesky-type factor of the Kronecker product of the `A_k` (lower-triangularity of the product is
+    not stated here) -/
+theorem cholesky_n_blocks (ns : List Nat) (Ls As : Blocks K ns) (h : Blocks.cholRel ns Ls As) :
+    kronAll ns Ls * (kronAll ns Ls)ᵀ = kronAll ns As := kronAll_chol ns Ls As h
+
+end kronN
+
+-- NOT YET PROVED (C19, remaining clauses)
+-- * construction round trip: `TTMatrix(M, ranks, input_dims, output_dims).torch() = M` for sufficient ranks
+--   (needs the TT-SVD of `tn.Tensor(tensor, ranks_tt=ranks)`; only the index interleaving `split_pair` is proved)
+--   and the analogous statement for `CPMatrix` (ALS, no exact statement possible beyond the index maps).
+-- * the batch form of `TTMatrix` (5-way cores `b × r × i × o × r'`): `trace` with `eq = "bi,biaaj->bj"`;
+--   `tt_multiply` itself only accepts non-batch matrices (its einsum `lior` is 4-way).
+-- * `slog_determinant`: `sign = Π sign(det A_k)^(rows/n_k)`, `logdet = Σ (rows/n_k)·log|det A_k|` equal
+--   sign / log|·| of `det (kronAll ns bs)` (follows from `det_n_blocks` over an ordered field with `log`).
+-- * `cholesky`: lower-triangularity (hence uniqueness) of the Kronecker product of lower-triangular factors
+--   in the row-major order of `KIdx`; `cholesky_n_blocks` gives only `L Lᵀ = A`.
 
 end TN.C19
